@@ -141,6 +141,7 @@ fn main() {
         let mut sel = Selection::with_options(&opts);
         let _ = mark_new_run("");
         let mut run_no: u32 = 0;
+        let mut run_of: Vec<(u32, u32)> = Vec::new();   // command number -> run number seen
         let mut steps: Vec<(Op, Option<Obs>)> = Vec::new();
         let mut bad: BTreeMap<&'static str, String> = BTreeMap::new(); // property -> first failure
         // oracle state
@@ -186,7 +187,15 @@ fn main() {
                 });
                 res.is_err()
             };
-            if let Op::SetRun(q) = op { run_no = mark_new_run(&format!("verif-run-{}", q)); }
+            // the commands differ only in blanks around them: they are still different commands
+            if let Op::SetRun(q) = op {
+                run_no = mark_new_run(&format!("{}verif-run{}", if *q == 2 { " " } else { "" }, if *q == 1 { " " } else { "" }));
+                // a command keeps its run number; different commands have different ones
+                if let Some((q2, _)) = run_of.iter().find(|(q2, n2)| (*q2 == *q) != (*n2 == run_no)) {
+                    bad.entry("C10").or_insert(format!("op #{} {:?}: command #{} got run number {}, command #{} has {}", k, op, q, run_no, q2, run_of.iter().find(|x| x.0 == *q2).unwrap().1));
+                }
+                if !run_of.iter().any(|(q2, _)| *q2 == *q) { run_of.push((*q, run_no)); }
+            }
             if let Op::Draw(h) = op {
                 let mut cv = Rec::new(40, *h);
                 let sel_ref = AssertUnwindSafe(&sel);
